@@ -309,7 +309,7 @@ class SpyRunner(Runner):
             return
         # gated: poll with a short timeout; when a polling round yields nothing we may be at rest
         self.ctl.log('wait')
-        items = list(self.real.wait(timeout_seconds=0.02))
+        items = list(self.real.wait(timeout_seconds=getattr(self, 'poll_timeout', 0.02)))
         if items:
             self.ctl.log('batch', [t.name for t, _ in items])
             for task, res in items:
@@ -320,6 +320,17 @@ class SpyRunner(Runner):
         unfinished = [n for n in self.submitted if n not in self.yielded]
         inside = self._inside_run()
         blocked = [n for n in inside if n not in self.released]
+        if self.cancelled:
+            # draining after an interrupt: the real runner may have lost track of a submission that was interrupted half-way, so
+            # the spy's own bookkeeping must not hold any gate closed - everything still blocked is simply let go (unless the
+            # case holds the gates for a second interrupt)
+            self.ctl.log('rest', sorted(blocked), sorted(unfinished), len(blocked), True)
+            if self.ctl.rest_hook is not None:
+                self.ctl.rest_hook(self, blocked, unfinished)
+            if blocked and not getattr(self, 'hold_gates', False):
+                self.ctl.log('release', sorted(blocked), 'drain')
+                self._release(sorted(blocked))
+            return
         if any(n in self.released for n in unfinished):
             return     # a released node has not been handed back yet: not at rest
         if any(self.submitted[n] for n in unfinished) and len(blocked) < self.max_workers:
